@@ -1,10 +1,15 @@
 (* C19 - Account configuration survives serialisation and is saved atomically.
-   Statements only; proofs are in C19/C19Proofs*.v.  External primitives (base64, json) are
-   universally quantified functions constrained by the named hypotheses; the harness runs the
-   extracted model with the real base64/json behind them and re-checks the hypotheses on every
-   oracle call. *)
-From YV Require Import Common.Tac C19.C19Str C19.C19StrCheck C19.C19Model C19.C19ProofsKV C19.C19ProofsPipe
-                       C19.C19ProofsSave C19.C19ProofsLoad C19.C19NonVacuity.
+   Statements only; proofs are in C19/C19Proofs*.v.
+   base64 is MODELLED (C19/C19B64.v: b64_encode = base64.b64encode(..).decode(), b64_decode =
+   base64.b64decode on a str, i.e. the lenient binascii.a2b_base64 state machine) and the facts the
+   file formats need from it are theorems below - for byte strings of every length.  json.dumps /
+   json.loads stay universally quantified functions constrained by three named hypotheses; the
+   harness runs the extracted model with the real json behind them and re-checks the hypotheses
+   on every oracle call, and compares b64_encode / b64_decode and every field encoder of
+   ConfigSerialize with the interpreter on every run (lengths 0..200, 1000, ...). *)
+From YV Require Import Common.Tac C19.C19Str C19.C19StrCheck C19.C19B64 C19.C19Model C19.C19ProofsKV
+                       C19.C19ProofsPipe C19.C19ProofsSave C19.C19ProofsLoad C19.C19ProofsB64
+                       C19.C19NonVacuity.
 Local Open Scope N_scope.
 
 (* key=value: reverse (transform d) = d with every value as text, keys in sorted order, for every
@@ -16,49 +21,84 @@ Theorem C19_keyval_rt : forall d : list (str * jval),
 Proof. exact keyval_rt_thm. Qed.
 Print Assumptions C19_keyval_rt.
 
+(* ---- base64, as the field encoders use it ---- *)
+
+(* every character of base64.b64encode's output is one of the 65 characters A-Z a-z 0-9 + / = ,
+   for every input of every length *)
+Theorem C19_b64_alphabet : forall b : list N, forallb b64_char (b64_encode b) = true.
+Proof. exact b64_encode_alphabet_thm. Qed.
+Print Assumptions C19_b64_alphabet.
+
+(* hence the encoded text is a legal key=value value (no '#', ';', newline, carriage return, no
+   outer blank) and occupies ONE line, whatever the length of the data; its length is
+   4 * ceil(len/3) *)
+Theorem C19_b64_keyval_safe : forall b : list N,
+  value_ok (b64_encode b) = true /\
+  forallb (fun c => negb ((c =? 10) || (c =? 13))) (b64_encode b) = true /\
+  N.of_nat (length (b64_encode b)) = 4 * ((N.of_nat (length b) + 2) / 3).
+Proof. exact b64_encode_keyval_safe_thm. Qed.
+Print Assumptions C19_b64_keyval_safe.
+
+(* base64.b64decode(base64.b64encode(b).decode()) == b for every byte string b *)
+Theorem C19_b64_roundtrip : forall b : list N, bytes_ok b = true -> b64_decode (b64_encode b) = Some b.
+Proof. exact b64_rt_thm. Qed.
+Print Assumptions C19_b64_roundtrip.
+
+(* one line of the key=value file: "key=<base64 of b>" is read back as exactly (key, that text):
+   the parser splits at the FIRST '=', so the pad characters stay in the value *)
+Theorem C19_b64_line_rt : forall (k : str) (b : list N), key_ok k = true ->
+  kv_parse_line (k ++ 61 :: b64_encode b) = Some (Some (k, JStr (b64_encode b))).
+Proof. exact b64_line_rt_thm. Qed.
+Print Assumptions C19_b64_line_rt.
+
+(* ---- configurations ---- *)
+
 (* the transform pipeline: for every well-typed configuration (any subset of the 16 optional
-   attributes, any values, key pair halves of 32 bytes) deserialize (serialize c) = c exactly. *)
-Theorem C19_pipeline_rt : forall (b64enc : list N -> str) (b64dec : str -> option (list N)),
-  (forall b, b64dec (b64enc b) = Some b) ->
-  forall c, wf_config c = true ->
-  exists d, serialize b64enc c = Some d /\ deserialize b64dec d = Some c.
-Proof. exact pipeline_rt_thm. Qed.
+   attributes, any values, binary attributes = byte strings of ANY length, key pair halves of 32
+   bytes) deserialize (serialize c) = c exactly. *)
+Theorem C19_pipeline_rt : forall c, wf_config c = true ->
+  exists d, serialize b64_encode c = Some d /\ deserialize b64_decode d = Some c.
+Proof. exact pipeline_rt_b64_thm. Qed.
 Print Assumptions C19_pipeline_rt.
+
+(* the key=value file format, closed (nothing assumed): for every well-typed configuration whose
+   textual values are in the key=value domain, for every length of id / expid /
+   edge_routing_info / server_static_public: the printed file parses to a non-empty dict and
+   deserialising it gives the configuration back (int-valued attributes as decimal text). *)
+Theorem C19_keyval_config_rt : forall c, wf_config c = true -> kv_config_ok c = true ->
+  exists d p, serialize b64_encode c = Some d /\ kv_parse (kv_print d) = Some p /\ p <> [] /\
+              deserialize b64_decode p = Some (textual_config c).
+Proof. exact keyval_config_rt_thm. Qed.
+Print Assumptions C19_keyval_config_rt.
 
 (* both file formats, text level: config_to_str succeeds, the format's own parser reads the text
    back to a non-empty dict, and deserialize gives the saved configuration (key=value: int-valued
-   attributes as their decimal text, fmt_view). *)
-Theorem C19_format_rt : forall (b64enc : list N -> str) (b64dec : str -> option (list N))
-    (jdumps : list (str * jval) -> str) (jloads : str -> option (list (str * jval))),
-  (forall b, b64dec (b64enc b) = Some b) ->
-  (forall b, value_ok (b64enc b) = true) ->
+   attributes as their decimal text, fmt_view).  JSON: under json_rt. *)
+Theorem C19_format_rt : forall (jdumps : list (str * jval) -> str) (jloads : str -> option (list (str * jval))),
   (forall d, NoDup (keys d) -> jloads (jdumps d) = Some (sort_keys d)) ->
   forall (f : fmt) (c : config), wf_config c = true -> (f = KeyVal -> kv_config_ok c = true) ->
-  exists t d, config_to_str b64enc jdumps f c = Some t /\ parse_as jloads f t = Some d /\ d <> [] /\
-              deserialize b64dec d = Some (fmt_view f c).
-Proof. exact format_rt_thm. Qed.
+  exists t d, config_to_str b64_encode jdumps f c = Some t /\ parse_as jloads f t = Some d /\ d <> [] /\
+              deserialize b64_decode d = Some (fmt_view f c).
+Proof. exact format_rt_b64_thm. Qed.
 Print Assumptions C19_format_rt.
 
 (* load paths: a file holding what save wrote in format f loads as the saved configuration
    (a) by path when its extension maps to f or is not in MAP_EXT (incl. no extension: trial
    parsing picks the right parser), (b) by profile name from <profile>/config.json whatever f
    (incl. right after the first save of a never-used profile). *)
-Theorem C19_load_paths : forall (b64enc : list N -> str) (b64dec : str -> option (list N))
-    (jdumps : list (str * jval) -> str) (jloads : str -> option (list (str * jval))),
-  (forall b, b64dec (b64enc b) = Some b) ->
-  (forall b, value_ok (b64enc b) = true) ->
+Theorem C19_load_paths : forall (jdumps : list (str * jval) -> str) (jloads : str -> option (list (str * jval))),
   (forall d, NoDup (keys d) -> jloads (jdumps d) = Some (sort_keys d)) ->
   (forall d, d <> [] -> exists rest, jdumps d = 123 :: 10 :: rest) ->
   (forall d, forallb (fun c => negb (c =? 13)) (jdumps d) = true) ->
   forall (f : fmt) (c : config) (s : fsys) (root name t : str),
   wf_config c = true -> (f = KeyVal -> kv_config_ok c = true) ->
-  config_to_str b64enc jdumps f c = Some t ->
+  config_to_str b64_encode jdumps f c = Some t ->
   (fs_read s name = Some t -> ext_type name = None \/ ext_type name = Some f ->
-     load b64dec jloads s root name false = LOk (fmt_view f c)) /\
+     load b64_decode jloads s root name false = LOk (fmt_view f c)) /\
   (fs_read s name = None -> fs_read s (pjoin (profile_dir root name) s_config_yo) = None ->
    fs_read s (pjoin (profile_dir root name) s_config_json) = Some t ->
-     load b64dec jloads s root name false = LOk (fmt_view f c)).
-Proof. exact load_paths_thm. Qed.
+     load b64_decode jloads s root name false = LOk (fmt_view f c)).
+Proof. exact load_paths_b64_thm. Qed.
 Print Assumptions C19_load_paths.
 
 (* the repaired save runs to completion from ANY file-system state - also when the profile
@@ -84,21 +124,18 @@ Print Assumptions C19_atomic_generic.
 
 (* end to end: whenever the process dies during the save of configuration c, load(profile)
    returns exactly what it returned before the save, or the new configuration. *)
-Theorem C19_atomic_save : forall (b64enc : list N -> str) (b64dec : str -> option (list N))
-    (jdumps : list (str * jval) -> str) (jloads : str -> option (list (str * jval))),
-  (forall b, b64dec (b64enc b) = Some b) ->
-  (forall b, value_ok (b64enc b) = true) ->
+Theorem C19_atomic_save : forall (jdumps : list (str * jval) -> str) (jloads : str -> option (list (str * jval))),
   (forall d, NoDup (keys d) -> jloads (jdumps d) = Some (sort_keys d)) ->
   (forall d, d <> [] -> exists rest, jdumps d = 123 :: 10 :: rest) ->
   (forall d, forallb (fun c => negb (c =? 13)) (jdumps d) = true) ->
   forall (f : fmt) (c : config) (s s' : fsys) (root name t : str),
   wf_config c = true -> (f = KeyVal -> kv_config_ok c = true) ->
-  config_to_str b64enc jdumps f c = Some t ->
+  config_to_str b64_encode jdumps f c = Some t ->
   fs_read s name = None -> fs_read s (pjoin (profile_dir root name) s_config_yo) = None ->
   crash s (save_prog s root name t) s' ->
-  load b64dec jloads s' root name false = load b64dec jloads s root name false \/
-  load b64dec jloads s' root name false = LOk (fmt_view f c).
-Proof. exact atomic_save_thm. Qed.
+  load b64_decode jloads s' root name false = load b64_decode jloads s root name false \/
+  load b64_decode jloads s' root name false = LOk (fmt_view f c).
+Proof. exact atomic_save_b64_thm. Qed.
 Print Assumptions C19_atomic_save.
 
 (* ---- the unrepaired variants (regression witnesses) ---- *)
@@ -132,3 +169,21 @@ Theorem C19_keyval_profile_unfixed_refuted : forall (b64dec : str -> option (lis
   jloads (unl t) = None -> load_unfixed b64dec jloads s root name = LErr.
 Proof. exact load_unfixed_keyval_shape. Qed.
 Print Assumptions C19_keyval_profile_unfixed_refuted.
+
+(* a line-breaking base64 flavour (base64.encodebytes: newline after every 76 characters) in a
+   field encoder: identical text up to 57 bytes; at 58 bytes the value contains a newline, the
+   decoder still returns the bytes (so JSON is unaffected), but the key=value entry is split and
+   the file no longer loads - while with the encoder the code uses the same entry loads. *)
+Theorem C19_mime_b64_refuted :
+  wf_config long_cfg = true /\ kv_config_ok long_cfg = true /\
+  b64_mime (repeat 255 57) = b64_encode (repeat 255 57) /\
+  In 10 (b64_mime (repeat 255 58)) /\
+  b64_decode (b64_mime (repeat 255 58)) = Some (repeat 255 58) /\
+  obind (kv_parse (k_edge_routing_info ++ 61 :: b64_mime (repeat 255 58)))
+        (deserialize b64_decode) = None /\
+  obind (kv_parse (k_edge_routing_info ++ 61 :: b64_encode (repeat 255 58)))
+        (deserialize b64_decode) =
+  Some (mkConfig None None None None None None None None None None None None None None
+                 (Some (CBytes (repeat 255 58))) None).
+Proof. exact mime_b64_refuted_thm. Qed.
+Print Assumptions C19_mime_b64_refuted.
